@@ -1,7 +1,7 @@
 (* C11 -- A nolint comment suppresses exactly the diagnostics on its own lines (model M2). *)
 From Coq Require Import List Bool Arith Permutation.
-From NM Require Import Diag.
-From NP Require Import DiagProofs.
+From NM Require Import Diag Nolint.
+From NP Require Import DiagProofs NolintProofs.
 Import ListNotations.
 
 (* for both values of the grouping flag: a conflict is shown (as a diagnostic position or in exactly one
@@ -24,3 +24,19 @@ Example C11_first_of_group_suppressed :
   map (fun d => (c_id (d_head d), map c_id (d_similar d)))
       (diagnostics true [{| r_file := 1; r_from := 10; r_to := 10 |}] false ex_cs) = [(2, [3])].
 Proof. exact ex_nolint_first. Qed.
+
+(* ---- what counts as a nolint comment (model M12 = nolintContainsNilAway, tied by a correspondence on comment texts) ----
+   A structured directive -- leading slashes and spaces, the word nolint, optionally a colon and a comma-separated linter
+   list with arbitrary spaces around the items, optionally an explanation after " //" -- suppresses exactly if it has no
+   linter list or the list names `nilaway` or `all` in any letter case; text that does not start with the WORD nolint
+   never does. *)
+Theorem C11_directive_text_decides : forall d, wf d = true -> nolint_contains (print d) = decide d.
+Proof. exact nolint_print_decide. Qed.
+Print Assumptions C11_directive_text_decides.
+Theorem C11_not_a_directive : forall text,
+  has_prefix s_nolint (trim_left [c_slash; c_space] text) = false -> nolint_contains text = false.
+Proof. exact not_a_directive. Qed.
+Theorem C11_directive_is_a_word : forall text c r,
+  skipn 6 (trim_left [c_slash; c_space] text) = c :: r -> mem c [c_colon; c_space; c_tab] = false ->
+  nolint_contains text = false.
+Proof. exact word_boundary. Qed.
